@@ -174,6 +174,9 @@ func c18Addr(c *harness.Check, cs addrCase) string {
 			if strings.HasPrefix(content, "@component(\"sub/zcomp\")") {
 				content = "<zc>;<zc>;<zc>;<zc>;<zc>;" // ... and the one that uses a component
 			}
+			if strings.HasPrefix(content, "@component(\"zparts/\")") {
+				content = "<zp>;<zp>;" // ... and a component whose file name is the extension alone
+			}
 			content = strings.ReplaceAll(content, "{{ 1 + 1 }}END", "2END") // (the tail of the big files)
 			if ferr != nil || out != content {
 				failure = fmt.Sprintf("template %q renders %q / %v, its file holds %q", n, clip(out, 300), ferr, clip(content, 300))
@@ -317,6 +320,15 @@ func TestC18_Addressing(t *testing.T) {
 			// a valid tree loads whatever the spelling of the relative paths inside it
 			tr[realDir+"/sub/zcomp"+ext] = tree.Entry{Content: "<zc>"}
 			tr[realDir+"/zuser"+ext] = tree.Entry{Content: "@component(\"sub/zcomp\");@component(\"/sub/zcomp\");@component(\"./sub/zcomp\");@component(\"sub//zcomp\");@component(\"sub/../sub/zcomp\");"}
+		}
+		if rapid.IntRange(0, 3).Draw(rt, "emptyStem") == 0 {
+			// a file named by the extension alone is registered under its directory's name plus a slash, and a reference spelled
+			// that way names it (not a file next to the directory)
+			tr[realDir+"/zparts/"+ext] = tree.Entry{Content: "<zp>"}
+			tr[realDir+"/zpartsuser"+ext] = tree.Entry{Content: "@component(\"zparts/\");@component(\"./zparts/\");"}
+			if rapid.Bool().Draw(rt, "emptyStemSibling") {
+				tr[realDir+"/zparts"+ext] = tree.Entry{Content: "FILE:zparts"}
+			}
 		}
 		if rapid.IntRange(0, 2).Draw(rt, "nestedComponents") == 0 {
 			// files that use each other as components - in a chain, in a cycle of two or three, or
